@@ -1052,7 +1052,7 @@ def gen_e2e_xml(rng, tier):
         yield e2e_xml_args(docs)
     for docs in WITNESS_XML.values():
         yield e2e_xml_args(docs)
-    for i in range(n_cases(tier, 260, 3000)):
+    for i in range(n_cases(tier, 260, 2000)):
         yield e2e_xml_args(clean_xml_docs(rng, hetero=0.3 if i % 6 == 5 else 0.0))
 
 
@@ -1087,7 +1087,7 @@ def gen_e2e_json(rng, tier):
     yield e2e_json_args([[{"a": 1}, {"a": 2, "b": "x"}], {"a": 3}])  # a document that is an array of root objects
     for docs in WITNESS_JSON.values():
         yield e2e_json_args(docs)
-    for i in range(n_cases(tier, 160, 2500)):
+    for i in range(n_cases(tier, 160, 1600)):
         yield e2e_json_args(clean_json_docs(rng, hetero=0.3 if i % 6 == 5 else 0.0))
 
 
@@ -1100,7 +1100,7 @@ def gen_fields(rng, tier):
         yield e2e_xml_args(docs)
     for docs in WITNESS_XML.values():
         yield e2e_xml_args(docs)
-    for i in range(n_cases(tier, 120, 2500)):
+    for i in range(n_cases(tier, 120, 1200)):
         yield e2e_xml_args(clean_xml_docs(rng, hetero=0.3 if i % 4 == 3 else 0.0))
 
 
@@ -1268,7 +1268,7 @@ def replay_json(fid):
 
 FINDINGS = {**{k: replay_xml(k) for k in WITNESS_XML}, **{k: replay_json(k) for k in WITNESS_JSON}}
 TRUSTED = [
-    "float and Decimal strict tests are abstract in the model (their answers travel with the request); int, bool, XmlTime, XmlDate, XmlDateTime, XmlDuration, XmlPeriod are computed by the model",
+    "repr(float(s)) is the one abstract function of the strict lexical tests (its answers travel with the request); float() syntax, Decimal, int, bool, XmlTime, XmlDate, XmlDateTime, XmlDuration, XmlPeriod are computed by the models",
     "lxml reads the sample text for the model side and compares infosets for the oracle",
     "jinja2/ruff absent: harness/standin_render.py transliterates the templates; ClassAnalyzer, the renderer, XmlParser/JsonParser and the serializers are exercised end to end only",
 ]
@@ -1278,14 +1278,15 @@ ASSUMPTIONS = [
     "connected_components is modelled by input/output behaviour (absorbing fold instead of the breadth-first walk)",
 ]
 LEVEL_TEXT = (
-    "Partial. Lean theorems (Props/C13.lean) about the executable model of the cores: for any XML / JSON documents the classes obtained by "
-    "ElementMapper/DictMapper.map + reduce_classes exist and admit every mapped occurrence (each attr present with bounds containing the "
-    "occurrence's, missing attrs optional; merged_bounds_sound states it in child counts); match_type picks the first live explicit type "
-    "whose strict test accepts, and int/bool values so inferred are read and written back unchanged by the binding model; connected_components is the "
-    "partition into maximal overlapping groups, independent of order. Since the repair of merge_attributes an interleaving marker of any occurrence "
-    "survives the merge (sequence_marker_kept). Three full-strength statements the code violates (union members read in fixed order, positional sequence numbers, "
-    "greedy field order) are refuted by witnesses and proved under decidable hypotheses. Tied to /repo by "
-    "correspondence of every core and by the end-to-end oracle (whole pipeline, strict parse, re-serialisation) on samples of hidden regular models; "
-    "eight defects listed as known findings, two repaired."
+    "Partial. Lean theorems (Props/C13.lean, Props/C13Interleave.lean) about the executable model of the cores: for any XML / JSON documents the classes "
+    "obtained by ElementMapper/DictMapper.map + reduce_classes exist and admit every mapped occurrence (merged_bounds_sound states it in child counts), and so do "
+    "the fields of the generated dataclasses after the ClassAnalyzer handlers (xml_fields_admit_samples: repeated child => list field, bounds never contradict the "
+    "occurrence, unused fields have defaults; the model predicts the generated fields exactly, checked field by field against the real generator); match_type picks the "
+    "first live explicit type whose strict test accepts, and values inferred as int, bool, Decimal and float are read and written back unchanged by the converter models "
+    "(only repr(float) is taken from outside); connected_components is the partition into maximal overlapping groups, independent of order; an interleaving marker of any "
+    "occurrence survives the merge (sequence_marker_kept) and a regular sequence group is written back in document order by EventGenerator.next_value (interleave_reproduced). "
+    "Three full-strength statements the code violates (union members read in fixed order, positional sequence numbers, greedy field order) are refuted by witnesses and "
+    "proved under decidable hypotheses. Tied to /repo by correspondence of every core (the real ResourceTransformer on preloaded resources) and by the end-to-end oracle "
+    "(whole pipeline, strict parse, re-serialisation) on samples of hidden regular models; seven defects listed as known findings, three repaired."
 )
-LEVEL_NOTE = "Trusted: Lean kernel, sampling correspondence, lxml, stand-in renderer; float/Decimal lexical tests abstract."
+LEVEL_NOTE = "Trusted: Lean kernel, sampling correspondence, lxml, stand-in renderer; repr(float) abstract; mixed classes outside the field model."
